@@ -401,6 +401,15 @@ func (b *Bucket) OpenUploadStreamWithID(ctx context.Context, id interface{}, nam
 		return nil, fmt.Errorf("invalid chunk size %d", chunkSize)
 	}
 
+	// copy id as the caller may change it before the stream is closed
+	if id != nil {
+		doc, err := bsonkit.Transform(bson.D{{Key: "_id", Value: id}})
+		if err != nil {
+			return nil, err
+		}
+		id = bsonkit.Get(doc, "_id")
+	}
+
 	// copy metadata as the caller may change it before the stream is closed
 	metadata := opt.Metadata
 	if metadata != nil {
